@@ -154,3 +154,78 @@ Lemma interrupted_compaction_harmless_refuted :
     <> res_map (fun nd => lookupk "c" (nd KTable))
                (restart kvstate kvmsg kapply ksnap kload kinit enc_rec dec_frame1 write_in_place [] hdr hist k).
 Proof. exists kv_hist, 4%nat, kv_leftover, kv_hdr. vm_compute. discriminate. Qed.
+
+(** ** last-write-wins components are replay-idempotent (so a compaction that raced with
+    later applies is harmless for them: ReplayProofs.restart_racy_idempotent); the register
+    (an accumulating component, like a sequence or a history list) is not. *)
+Fixpoint lookupl (k : string) (s : kvstate) : option (list N) :=
+  match s with
+  | [] => None
+  | (k', v) :: s' =>
+      match lookupl k s' with
+      | Some x => Some x
+      | None => if String.eqb k' k then Some v else None
+      end
+  end.
+
+Definition keq (_ : comp) (s1 s2 : kvstate) : Prop := forall k, lookupl k s1 = lookupl k s2.
+
+Lemma lookupl_app k s1 s2 :
+  lookupl k (s1 ++ s2)%list = match lookupl k s2 with Some x => Some x | None => lookupl k s1 end.
+Proof.
+  induction s1 as [| [k' v] s1 IH]; simpl.
+  - now destruct (lookupl k s2).
+  - rewrite IH. destruct (lookupl k s2); [reflexivity |]. reflexivity.
+Qed.
+
+Lemma lookupl_removek k k' s :
+  lookupl k (removek k' s) = if String.eqb k' k then None else lookupl k s.
+Proof.
+  induction s as [| [k2 v] s IH]; simpl.
+  - now destruct (String.eqb k' k).
+  - destruct (String.eqb k2 k') eqn:E2; simpl.
+    + apply String.eqb_eq in E2. subst k2. rewrite IH.
+      destruct (String.eqb k' k); [reflexivity |]. now destruct (lookupl k s).
+    + rewrite IH. destruct (String.eqb k' k) eqn:E1; [| reflexivity].
+      apply String.eqb_eq in E1. subst k. now rewrite E2.
+Qed.
+
+Definition updk (k : string) (d : option (list N)) (m : kvmsg) : option (list N) :=
+  match m with
+  | KSet k' v => if String.eqb k' k then Some v else d
+  | KDel k' => if String.eqb k' k then None else d
+  end.
+
+Lemma lookupl_kapply c k s m : lookupl k (kapply c s m) = updk k (lookupl k s) m.
+Proof.
+  destruct m as [k' v | k']; simpl.
+  - rewrite lookupl_app. simpl. rewrite lookupl_removek. now destruct (String.eqb k' k).
+  - apply lookupl_removek.
+Qed.
+
+Lemma lookupl_fold c k h : forall s,
+  lookupl k (fold_left (kapply c) h s) = fold_left (updk k) h (lookupl k s).
+Proof. induction h as [| m h IH]; intros s; simpl; [reflexivity |]. now rewrite IH, lookupl_kapply. Qed.
+
+Lemma lw_const_or_id k h :
+  (forall d, fold_left (updk k) h d = d) \/ (exists c, forall d, fold_left (updk k) h d = c).
+Proof.
+  induction h as [| m h IH]; [left; reflexivity |].
+  destruct IH as [ID | [c CO]].
+  - simpl. destruct m as [k' v | k']; simpl; destruct (String.eqb k' k);
+      first [ right; eexists; intros d; rewrite ID; reflexivity | left; intros d; apply ID ].
+  - right. exists c. intros d. simpl. apply CO.
+Qed.
+
+Lemma kv_replay_idempotent : forall c, replay_idempotent kvstate kvmsg kapply keq c.
+Proof.
+  intros c s h k. rewrite !lookupl_fold.
+  destruct (lw_const_or_id k h) as [ID | [x CO]]; [now rewrite !ID | now rewrite !CO].
+Qed.
+
+Lemma keq_apply_cong : forall c s1 s2 m, keq c s1 s2 -> keq c (kapply c s1 m) (kapply c s2 m).
+Proof. intros c s1 s2 m H k. rewrite !lookupl_kapply. now rewrite H. Qed.
+
+(** the register is not replay-idempotent *)
+Lemma reg_not_replay_idempotent : ~ replay_idempotent N N rapply req_ KConfig.
+Proof. intros H. specialize (H 0%N [1%N]). vm_compute in H. discriminate. Qed.
